@@ -2,7 +2,7 @@
    Only statements, `exact`, and Print Assumptions here; proofs are in Text/*Proofs.v. *)
 From Coq Require Import NArith List Bool String.
 From Verif Require Import Base.Chars Base.StrX Text.FilePos Text.FileText Text.Split
-                          Text.FileTextProofs Text.SplitProofs.
+                          Text.FileTextProofs Text.SplitProofs Text.StrLits Text.StrLitsProofs.
 Import ListNotations.
 
 (* slicing is additive: cutting a text at b between a and c loses and duplicates nothing *)
@@ -61,6 +61,25 @@ Theorem C10_noncode_pieces_blank_or_comment : forall (K : Type) (ns : list (node
 Proof. exact noncode_pieces_blank_or_comment. Qed.
 Print Assumptions C10_noncode_pieces_blank_or_comment.
 
+(* string_literals(): over the abstract AST (node kinds, CPython's raw positions as sort keys, annotated
+   start positions, fields in _fields order), with the child order of _iter_child_nodes_in_order (repaired
+   type_params / JoinedStr orders) and the pre-order walk: the reported nodes are exactly the str/bytes
+   constants reachable through that child relation, and - given `ordered` (every node starts no later than
+   its first walked child, everything below a child starts no later than the next child; evaluated on
+   CPython's positions on every case) - they are reported in source order.  That each reported position is
+   the literal's true first character is the oracle's part (tokenizer). *)
+Theorem C10_string_literals_sorted : forall fuel root ls,
+  ordered fuel root = true -> string_literals fuel root = Some ls ->
+  Sorted.StronglySorted (fun x y => pos_leb (a_start x) (a_start y) = true) ls.
+Proof. exact string_literals_sorted. Qed.
+Print Assumptions C10_string_literals_sorted.
+
+Theorem C10_string_literals_exact : forall fuel root ls,
+  string_literals fuel root = Some ls ->
+  forall x, In x ls <-> (a_is_str x = true /\ reach root x).
+Proof. exact string_literals_exact. Qed.
+Print Assumptions C10_string_literals_exact.
+
 (* non-vacuity: the F3 witness, a `;` join with non-ASCII text, leading blank lines (stale startpos) *)
 Definition ex_t1 := of_str (dec "x = $22;$22;$22;abc$a;# foo $22;$22;$22;$a;# c$a;$a;y = 2$a;"%string) (mkPos 1 1).
 Definition ex_ns1 : list (node N) := [mkNode (mkPos 1 1) 2 0%N; mkNode (mkPos 5 1) 5 1%N].
@@ -79,3 +98,17 @@ Example C10_nonvacuous_semicolon_stale :
   = Some [(None, dec "$a;"%string, mkPos 7 3); (None, dec "$a;"%string, mkPos 7 3); (None, dec "# c$a;"%string, mkPos 7 3);
           (Some 0%N, dec "x = $22;$e9;$22;; "%string, mkPos 10 1); (Some 1%N, dec "y = 1"%string, mkPos 10 10)].
 Proof. vm_compute. repeat split. Qed.
+
+(* non-vacuity: f(k="v", *"s") - the Call's keyword comes before the starred argument in CPython's fields
+   and after it in the source; print(f'{x=}') - the constant "x=" is listed first and positioned second *)
+Definition ex_call : anode :=
+  ANode AKDefault (0, 0) (mkPos 1 1) false
+    [[Some (ANode AKDefault (1, 0) (mkPos 1 1) false
+       [[Some (ANode AKCall (1, 0) (mkPos 1 1) false
+          [[Some (ANode AKDefault (1, 0) (mkPos 1 1) false [])];
+           [Some (ANode AKDefault (1, 9) (mkPos 1 10) false [[Some (ANode AKDefault (1, 10) (mkPos 1 11) true [])]])];
+           [Some (ANode AKKeyword (1, 2) (mkPos 1 3) false [[Some (ANode AKDefault (1, 4) (mkPos 1 5) true [])]])]])]])]].
+Example C10_nonvacuous_string_literals :
+  ordered 6 ex_call = true /\
+  option_map (map a_start) (string_literals 6 ex_call) = Some [mkPos 1 5; mkPos 1 11].
+Proof. vm_compute. split; reflexivity. Qed.
